@@ -1,6 +1,7 @@
 import Hyeong.Lemmas.NumProof
 /-!
-# Lemmas.NumOrder — `Num::floor` on every canonical value; comparison as a strict total order on numbers
+# Lemmas.NumOrder — `Num::floor` on every canonical value; comparison as a strict total order on numbers;
+commutativity and associativity of `add`/`mul` at the level of the stored fields
 -/
 
 namespace HyN
@@ -65,4 +66,43 @@ theorem cmp_eq_same (a b : NumI) (ha : Canon a) (hb : Canon b) : cmp a b = some 
     subst h
     unfold cmp
     simp [canon_not_nan ha]
+
+/-! ## sums and products do not depend on operand order or bracketing (as stored fields, not only as values) -/
+
+/-- the sum does not depend on the order of the two operands — as values *and* as stored fields -/
+theorem add_comm_fields (a b : NumI) (ha : Canon a) (hb : Canon b) : add a b = add b a := by
+  have h1 := add_exact a b ha hb
+  have h2 := add_exact b a hb ha
+  rw [canon_eq_iff _ _ h1.1 h2.1, h1.2, h2.2, Rat.add_comm]
+
+theorem mul_comm_fields (a b : NumI) (ha : Canon a) (hb : Canon b) : mul a b = mul b a := by
+  have h1 := mul_exact a b ha hb
+  have h2 := mul_exact b a hb ha
+  rw [canon_eq_iff _ _ h1.1 h2.1, h1.2, h2.2, Rat.mul_comm]
+
+/-- … nor on how a sum of three is bracketed: the text a program prints for `a+b+c` is the same whichever
+two the implementation adds first -/
+theorem add_assoc_fields (a b c : NumI) (ha : Canon a) (hb : Canon b) (hc : Canon c) :
+    add (add a b) c = add a (add b c) := by
+  have hab := add_exact a b ha hb
+  have hbc := add_exact b c hb hc
+  have h1 := add_exact (add a b) c hab.1 hc
+  have h2 := add_exact a (add b c) ha hbc.1
+  rw [canon_eq_iff _ _ h1.1 h2.1, h1.2, h2.2]
+  have e1 := toRat_canon hab.1
+  have e2 := toRat_canon hbc.1
+  rw [hab.2] at e1; rw [hbc.2] at e2
+  rw [← Option.some.inj e1, ← Option.some.inj e2, Rat.add_assoc]
+
+theorem mul_assoc_fields (a b c : NumI) (ha : Canon a) (hb : Canon b) (hc : Canon c) :
+    mul (mul a b) c = mul a (mul b c) := by
+  have hab := mul_exact a b ha hb
+  have hbc := mul_exact b c hb hc
+  have h1 := mul_exact (mul a b) c hab.1 hc
+  have h2 := mul_exact a (mul b c) ha hbc.1
+  rw [canon_eq_iff _ _ h1.1 h2.1, h1.2, h2.2]
+  have e1 := toRat_canon hab.1
+  have e2 := toRat_canon hbc.1
+  rw [hab.2] at e1; rw [hbc.2] at e2
+  rw [← Option.some.inj e1, ← Option.some.inj e2, Rat.mul_assoc]
 end HyN
